@@ -101,18 +101,36 @@ def run(rep):
                 rep.ob("R4-notify-kind", fam(f), fam(f).endswith("spawn_compilation_thread"), f.file, t["ln"],
                        "notify_waiters outside the compilation worker")
     # ---- R2 ------------------------------------------------------------------------------------------------------------
+    # Async handler bodies are state machines in MIR (dominance does not survive an .await), so this rule is decided on the
+    # syntax tree: in the statement list that contains `is_compiling.store(true, ..)`, the request is sent by a later statement of
+    # the same list and nothing in between can leave the function or suspend it (`?`, return, .await, bail!-like macros).
+    from lib import tab
     n2 = 0
-    for f in fns:
-        stores = [(bi, t) for bi, t in f.calls() if STORE.search(t.get("fp", "")) and atomic_name(f, t) == "is_compiling" and const_bool(t) is True]
-        if not stores or fam(f).endswith("spawn_compilation_thread"):
+    for rel in ("sway-lsp/src/handlers/notification.rs", "sway-lsp/src/handlers/request.rs", "sway-lsp/src/server.rs"):
+        try:
+            tr = tab.tree(rel)
+        except Exception:
             continue
-        sends = [(bi, t) for bi, t in f.calls() if SEND.search(t.get("fp", "")) or (t.get("fp", "")).endswith("send_new_compilation_request")]
-        for sbi, st in stores:
-            n2 += 1
-            ok = bool(sends) and all(f.dominates(sbi, b) and sbi != b for b, _ in sends)
-            rep.ob("R2-flag-set-before-request-sent", fam(f), ok, f.file, st["ln"],
-                   "is_compiling.store(true) follows the send of the request it announces: the worker can receive, compile and reset the flag first; "
-                   "the late store then leaves is_compiling == true with no compilation running and every wait_for_parsing hangs")
+        for fn_ in tab.items(tr, "Fn"):
+            for blk in [n for n in tab.walk(fn_["body"]) if n.get("k") == "Block"]:
+                stmts = blk.get("stmts", [])
+                for i_, st in enumerate(stmts):
+                    if not _is_flag_store(st):
+                        continue
+                    n2 += 1
+                    send_at = None
+                    for k_, later in enumerate(stmts[i_ + 1:], i_ + 1):
+                        if _sends(later):
+                            send_at = k_
+                            break
+                    between = stmts[i_ + 1:send_at] if send_at is not None else []
+                    leaks = [x.get("l", 0) for x in between if _may_leave(x)]
+                    ok = send_at is not None and not leaks
+                    rep.ob("R2-flag-set-before-request-sent", f"{fn_['name']}", ok, rel, st.get("l", 0),
+                           ("is_compiling.store(true) is not followed by the send of the request it announces" if send_at is None else
+                            f"between is_compiling.store(true) and the send there is a statement (line {leaks[0] if leaks else 0}) that can return or suspend") +
+                           ": on that path the flag stays set with no compilation to reset it, and every wait_for_parsing hangs; "
+                           "if the store came after the send instead, the worker's reset could come first")
     rep.floor("R2-flag-set-before-request-sent", 1, n2)
     # ---- R3 / R4 worker ----------------------------------------------------------------------------------------------------
     workers = [f for f in fns if fam(f).endswith("ServerState::spawn_compilation_thread") and f.kind == "closure" and any(RECV.search(t.get("fp", "")) for _, t in f.calls())]
@@ -157,6 +175,36 @@ def run(rep):
                     rep.ob("R5-state-written-by-reviewed-functions", f"{fam(f)}|{nm}", fam(f) in WRITERS[nm], f.file, t["ln"],
                            f"{nm} is written in {fam(f)}, which is not one of the reviewed writers {sorted(WRITERS[nm])}")
     rep.floor("R5-state-written-by-reviewed-functions", 6, n5)
+
+
+def _is_flag_store(st):
+    from lib import tab
+    for n in tab.walk(st):
+        if n.get("k") == "MethodCall" and n.get("method") == "store" and n.get("args"):
+            r = n["recv"]
+            a0 = n["args"][0]
+            if r.get("k") == "Field" and r.get("member") == "is_compiling" and a0.get("k") == "Lit" and a0.get("v") is True:
+                return st.get("k") in ("MethodCall", "Semi", "ExprStmt") or True
+    return False
+
+
+def _sends(st):
+    from lib import tab
+    for k_, nm, n in tab.calls(st):
+        if (k_ == "call" and tab.last_seg(nm) == "send_new_compilation_request") or \
+                (k_ == "method" and nm in ("send", "try_send") and "cb_tx" in str(n.get("recv"))):
+            return True
+    return False
+
+
+def _may_leave(st):
+    from lib import tab
+    for n in tab.walk(st):
+        if n.get("k") in ("Try", "Return", "Await", "Break", "Continue"):
+            return True
+        if n.get("k") == "Macro" and n.get("name") in ("bail", "panic", "unreachable", "todo", "unimplemented", "ensure"):
+            return True
+    return False
 
 
 def _reaches(f, call_t, name):
